@@ -904,6 +904,9 @@ impl<A: TreeApi> Sut for TreeSut<A> {
         }
         c
     }
+    fn record_bytes(&self) -> Option<usize> {
+        Some(self.rec_size())
+    }
     fn nontrivial(&self, state: &[u8]) -> bool {
         let d = decode::<A>(state);
         d.size >= 3 && d.flh != d.seq
